@@ -28,6 +28,10 @@ Cdfs == IF Size = "small" THEN {<<Zero, Zero>>, <<Zero, Frac(1, 2)>>, <<Frac(1, 
 EvCases == {<<o, cc[1], cc[2]>> : o \in ObsV, cc \in Cdfs}
 QV == IF Size = "small" THEN {R(0), R(2)} ELSE {R(0), R(1), R(2)}
 QCases == {<<o, f, x[1], x[2]>> : o \in QV \cup {R(1)}, f \in QV, x \in {y \in QV \X (QV \cup {R(3)}) : Le(y[1], y[2])}}
+          \* one quantity of the case missing: a score takes the cases in which every quantity IT uses is present (C01)
+          \cup {<<NaN, R(0), R(0), R(2)>>, <<R(1), NaN, R(0), R(2)>>, <<R(1), R(2), NaN, R(2)>>, <<R(2), R(0), R(0), NaN>>}
+\* the cases a score is computed from: those whose quantities at the given positions are all present
+Uses(cs, cols) == SelectSeq(cs, LAMBDA c1 : \A k \in cols : ~IsNaN(c1[k]))
 EnsV == {R(0), R(1), R(2), NaN}
 Ensembles == Seqs(EnsV, 1) \cup Seqs(EnsV, 2) \cup Seqs(EnsV, 3)
 PitV == {Zero, Frac(1, 8), Frac(1, 2), Frac(7, 8), One}
@@ -52,11 +56,12 @@ Emit ==
                                per |-> [bt \in BinTypes |-> LET pe == EventPE(c.s, bt, T1, T2) IN
                                           [n |-> Len(pe), p |-> JS(PP(pe)), e |-> JS(EE(pe)), scores |-> [m \in ProbMetrics |-> Prob(m, pe)]]]]))
     [] c.kind = "quant" -> PrintT(ToJson([kind |-> "quant", cases |-> JSS(c.s), levels |-> <<J(LevLo), J(LevHi)>>,
-                               qsLo |-> QuantileScore([k \in DOMAIN c.s |-> <<c.s[k][1], c.s[k][3]>>], LevLo),
-                               qsHi |-> QuantileScore([k \in DOMAIN c.s |-> <<c.s[k][1], c.s[k][4]>>], LevHi),
-                               coverage |-> [bt \in WithinTypes |-> QuantileCoverage(c.s, bt)],
-                               spread |-> Q(SpreadV(c.s)), ssr |-> SpreadSkillRatio(c.s, LevLo, LevHi),
-                               qmean |-> Q(MeanSeq([k \in DOMAIN c.s |-> c.s[k][3]]))]))
+                               qsLo |-> QuantileScore([k \in DOMAIN Uses(c.s, {1, 3}) |-> <<Uses(c.s, {1, 3})[k][1], Uses(c.s, {1, 3})[k][3]>>], LevLo),
+                               qsHi |-> QuantileScore([k \in DOMAIN Uses(c.s, {1, 4}) |-> <<Uses(c.s, {1, 4})[k][1], Uses(c.s, {1, 4})[k][4]>>], LevHi),
+                               coverage |-> [bt \in WithinTypes |-> QuantileCoverage(Uses(c.s, {1, 3, 4}), bt)],
+                               spread |-> IF Uses(c.s, {3, 4}) = <<>> THEN Undef ELSE Q(SpreadV(Uses(c.s, {3, 4}))),
+                               ssr |-> SpreadSkillRatio(Uses(c.s, {1, 2, 3, 4}), LevLo, LevHi),
+                               qmean |-> IF Uses(c.s, {3}) = <<>> THEN Undef ELSE Q(MeanSeq([k \in DOMAIN Uses(c.s, {3}) |-> Uses(c.s, {3})[k][3]]))]))
     [] c.kind = "ens" -> PrintT(ToJson([kind |-> "ens", ens |-> JSS(c.s), thresholds |-> JS(EnsThresholds),
                                prob |-> [k \in DOMAIN c.s |-> [j \in DOMAIN EnsThresholds |-> J(EnsProb(c.s[k], EnsThresholds[j]))]],
                                anyMissing |-> [k \in DOMAIN c.s |-> HasNaN(c.s[k])],
